@@ -6,7 +6,7 @@ from ..models import transform as tm
 
 ID = "C07"
 NEEDS_SHIM = True
-BUDGET = {"quick": 2400, "thorough": 40000}
+BUDGET = {"quick": 2400, "thorough": 200000}
 MIN_EVALS = {"quick": 2500, "thorough": 80000}
 ASSUMPTIONS = ["numba is absent: xgcm.transform is imported with the pure-Python guvectorize stand-in /verif/vf/shim/numba, "
                "so the kernel's Python semantics and all wrapper code are observed, not numba's code generation"]
@@ -30,7 +30,7 @@ LAT = [x / 2 for x in range(-4, 13)]
 
 
 def gen_case(rng, i, tier):
-    n = rng.randint(1, 7)
+    n = rng.randint(1, gen.deep(rng, tier, 7, 14))
     m = rng.randint(1, 5)
     bins = sorted(rng.sample(LAT, m + 1))
     inside = rng.random() < 0.7
